@@ -383,15 +383,30 @@ def probe_select(st):
         return r
     G.generate_variant_bytecode_parts = classmethod(gv)
 
+    cur = []          # stack of 'tried' lists, one per parse_operand call of an operand set in progress
+
+    def watch(operand):
+        """each alternative of the set reports into the call in progress; the set's own loop stays the repository's"""
+        inner = operand.parse_operand
+
+        def parse_operand(line_id, operand_str, register_labels, memzone_manager):
+            op = inner(line_id, operand_str, register_labels, memzone_manager)
+            if cur:
+                cur[-1].append([operand.id, operand.type.value, op is not None])
+            return op
+        operand.parse_operand = parse_operand
+        operand._vf_watched = True
+
     def po(self, line_id, operand_str, register_labels, memzone_manager):
-        tried = []
-        res = None
         for operand in self._ordered_operand_list:
-            op = operand.parse_operand(line_id, operand_str, register_labels, memzone_manager)
-            tried.append([operand.id, operand.type.value, op is not None])
-            if op is not None:
-                res = op
-                break
+            if not getattr(operand, '_vf_watched', False):
+                watch(operand)
+        tried = []
+        cur.append(tried)
+        try:
+            res = orig_po(self, line_id, operand_str, register_labels, memzone_manager)
+        finally:
+            cur.pop()
         rec['no'] += 1
         if len(rec['operands']) < 400:
             rec['operands'].append([getattr(line_id, 'line_num', None), operand_str, tried])
